@@ -237,7 +237,11 @@ type c14VM struct {
 	// the first "--list" call begun after that
 	brokenSeen map[int]int64
 	nextList   map[int]int64
-	spuriousT  int64 // last time this healthy VM was declared unresponsive by a dispatcher (machine too slow); 0 = never
+	// the dispatcher logged "unkillable container, but worker has
+	// IdleBehavior=Hold" for this instance: it gave up killing a process
+	// while the operator's hold was in force
+	gaveUpOnHold bool
+	spuriousT    int64 // last time this healthy VM was declared unresponsive by a dispatcher (machine too slow); 0 = never
 }
 
 type c14Finding struct {
@@ -409,6 +413,15 @@ func (h *c14LogHook) Fire(e *logrus.Entry) error {
 			g.schedStarted = true
 			g.staleGaveUp = gaveUp
 			g.mu.Unlock()
+		}
+	case strings.Contains(msg, "unkillable container, but worker has IdleBehavior=Hold"):
+		if id, ok := e.Data["Instance"]; ok {
+			w.mu.Lock()
+			if vm := w.vms[fmt.Sprint(id)]; vm != nil {
+				vm.gaveUpOnHold = true
+				w.counters["dispatcher_gave_up_kill_while_instance_on_hold"]++
+			}
+			w.mu.Unlock()
 		}
 	case strings.Contains(msg, "instance unresponsive, shutting down"):
 		if id, ok := e.Data["Instance"]; ok {
